@@ -10,7 +10,8 @@ from . import core
 ID = "C15"
 DRIVER = "cache"
 COQ_TARGETS = ["Properties/C15.vo"]
-THEOREMS = ["C15_inv_init", "C15_inv_preserved", "C15_inv_after_history", "C15_history_never_panics", "C15_prune_terminates", "C15_prune_no_expired_left", "C15_prune_at_most_desired", "C15_prune_refines", "C15_prune_in_history", "C15_count_is_distinct_entries", "C15_count_after_history", "C15_step_refines", "C15_expired_count_tie_independent", "C15_tb_first_ok"]
+THEOREMS = ["C15_inv_init", "C15_inv_preserved", "C15_inv_after_history", "C15_history_never_panics", "C15_prune_terminates", "C15_prune_no_expired_left", "C15_prune_at_most_desired", "C15_prune_refines", "C15_prune_in_history", "C15_count_is_distinct_entries", "C15_count_after_history", "C15_step_refines", "C15_expired_count_tie_independent", "C15_tb_first_ok",
+            "C15_concurrent_invariant", "C15_concurrent_is_history", "C15_concurrent_mutual_exclusion"]
 RULE = (cg.RULE_GEN + "; non-trivial = distinct history with at least 3 operations other than clock steps; the concurrency "
         "supplement counts one evaluation per run of 2..8 threads on one SharedCache whose quiescent dump was checked")
 ASSUMPTIONS = [
